@@ -43,7 +43,7 @@ ASSUMPTIONS = ['handlers do not raise (exceptions thrown by third-party handlers
 PROBES = ['nested_delay_flush', 'death_while_queued', 'unsub_during_dispatch', 'exception_exit_nonempty_queue',
           'handler_delay_during_flush', 'ignored_dropped', 'filter_rejected', 'most_specific_shadowing',
           'owner_death_removes_sub', 'reentrant_broadcast', 'listener_death', 'stateful_filter_rejected',
-          'filter_state_changed_during_dispatch']
+          'filter_state_changed_during_dispatch', 'dropped_listeners_checked']
 
 CLASSES = ['M0', 'M1', 'M2', 'N']
 PARENTS = {'M0': ['M0'], 'M1': ['M1', 'M0'], 'M2': ['M2', 'M1', 'M0'], 'N': ['N', 'M0']}
@@ -516,6 +516,8 @@ def check_trace(trace, res):
     stack = []      # frames: ['dispatch', window] | ['handler', lid] | ['flush', ctx]
     ndeliv = 0
     flags = [True, True]
+    dropped = {}
+    nkill = [0]
 
     def recipients(cls, tag):
         out = {}
@@ -603,6 +605,7 @@ def check_trace(trace, res):
                         res.probe('death_while_queued')
                     subs.pop(i, None)
                     alive.pop(i, None)
+                    dropped.pop(i, None)
                     touch(i)
             else:
                 for lid in list(subs):
@@ -745,8 +748,19 @@ def check_trace(trace, res):
             flags[ev[1]] = ev[2]
             if any(fr[0] == 'dispatch' or (fr[0] == 'flush' and fr[1]['win'] is not None) for fr in stack):
                 res.probe('filter_state_changed_during_dispatch')
-        elif k in ('kill', 'collect'):
-            pass
+        elif k == 'kill':
+            if ev[1] == 'L':
+                dropped[ev[2]] = True
+                nkill[0] += 1
+        elif k == 'collect':
+            # the hub refers to its listeners weakly: a listener whose owner has dropped it is gone after a collection
+            # (checked outside dispatches, where no frame can still hold it) and can receive nothing any more
+            if not stack:
+                still = sorted(lid for lid in dropped if alive.get(lid))
+                if still:
+                    raise Violation('C07/dropped-listener-kept-alive', 'listener(s) %s were dropped by their owner and a collection ran, but they are still subscribed' % still)
+                if nkill[0]:
+                    res.probe('dropped_listeners_checked')
         else:
             raise ValueError(ev)
     if queue:
